@@ -14,6 +14,7 @@ use crate::trace::*;
 use crate::values::*;
 use crate::{for_type, jbytes, with_inner};
 use serde_json::{json, Value};
+use shapefile::record::WritableShape;
 use shapefile::*;
 use std::path::PathBuf;
 
@@ -218,6 +219,30 @@ pub fn run_history_on<T: std::io::Write + std::io::Seek>(
                 e["flushedShx"] = json!(o1.flushed.1);
                 tr.emit(e);
             }
+            'E' => {
+                // consumption by write_shapes(&[]): nothing is added, the writer is dropped inside the call
+                let wr = w.take().unwrap();
+                let r = guarded(|| {
+                    for_type!(t, S, {
+                        let v: Vec<S> = vec![];
+                        wr.write_shapes(&v)
+                    })
+                });
+                let mut e = write_res(r);
+                let (ps, px) = plain_run(&accepted, with_shx);
+                e["ev"] = json!("drop");
+                e["unwinding"] = json!(false);
+                e["emptyBulk"] = json!(true);
+                e["shapes"] = json!([oa.to_json(), ob.to_json()]);
+                let o1 = observe();
+                e["shp"] = jbytes(&o1.shp);
+                e["shx"] = jbytes(&o1.shx);
+                e["flushedShp"] = json!(o1.flushed.0);
+                e["flushedShx"] = json!(o1.flushed.1);
+                e["plainShp"] = jbytes(&ps);
+                e["plainShx"] = jbytes(&px);
+                tr.emit(e);
+            }
             'X' => {
                 // consumption by write_shapes([x, x]) on a file of another type: refused at its first shape, and the
                 // writer, consumed by the call, is dropped inside it
@@ -378,7 +403,7 @@ pub fn run(a: &Args) {
         for tx in &xs {
             let syms = random_syms(&mut r, t, *tx);
             for h in all_hists(&['a', 'b', 'x', 'F'], n) {
-                for ending in ["D", "FD", "W", "U", "X"] {
+                for ending in ["D", "FD", "W", "U", "X", "E"] {
                     for ws in [true, false] {
                         // X (a refused consuming bulk write) needs a file of type t: the first write is a or b
                         if ending == "X" && !matches!(h.chars().find(|c| *c != 'F'), Some('a') | Some('b')) {
@@ -388,7 +413,7 @@ pub fn run(a: &Args) {
                             continue;
                         }
                         // (dropped while unwinding from a caller's panic: on the indexed writer only)
-                        if ending == "U" && !ws {
+                        if (ending == "U" || ending == "E") && !ws {
                             continue;
                         }
                         // W needs the file type to be t (or unset): skip when x came first
@@ -433,7 +458,7 @@ pub fn run(a: &Args) {
         for _ in 0..nrandom {
             let len = 5 + r.below(26);
             let mut h: String = (0..len).map(|_| *r.pick(&['a', 'b', 'a', 'b', 'x', 'F', 'F'])).collect();
-            h.push_str(*r.pick(&["D", "FD", "W", "U", "FU", "X", "X"]));
+            h.push_str(*r.pick(&["D", "FD", "W", "U", "FU", "X", "X", "E", "E"]));
             if h.ends_with('X') && !matches!(h.chars().find(|c| *c != 'F'), Some('a') | Some('b')) {
                 h.pop();
                 h.push('D');
@@ -450,6 +475,41 @@ pub fn run(a: &Args) {
             distinct.insert((t, ws, h.clone()));
             run_history(&mut traces[i], &concs[i], t, ws, &h, &syms, &prop, None);
         }
+    }
+    // 5. a .shp that approaches 2 GiB (into a sink that only counts): a shape of another type is refused for its
+    //    TYPE there as everywhere else
+    if (prop == "C10" || prop == "all") && !a.has("nogiga") {
+        struct CountSink { pos: u64, len: u64 }
+        impl std::io::Write for CountSink {
+            fn write(&mut self, b: &[u8]) -> std::io::Result<usize> { self.pos += b.len() as u64; self.len = self.len.max(self.pos); Ok(b.len()) }
+            fn flush(&mut self) -> std::io::Result<()> { Ok(()) }
+        }
+        impl std::io::Seek for CountSink {
+            fn seek(&mut self, to: std::io::SeekFrom) -> std::io::Result<u64> {
+                self.pos = match to { std::io::SeekFrom::Start(n) => n, std::io::SeekFrom::End(d) => (self.len as i64 + d) as u64, std::io::SeekFrom::Current(d) => (self.pos as i64 + d) as u64 };
+                Ok(self.pos)
+            }
+        }
+        let npts = 4_000_000usize;
+        let big = Polyline::new((0..npts).map(|i| Point::new((i % 1000) as f64, (i % 777) as f64)).collect());
+        let other = Multipoint::new((0..npts).map(|i| Point::new((i % 10) as f64, 1.0)).collect());
+        let mut w = ShapeWriter::new(CountSink { pos: 0, len: 0 });
+        let mut ok = 0usize;
+        let per_words = (big.size_in_bytes() + 4) / 2 + 4;
+        let n_big = ((1usize << 30) - 50) / per_words;            // as many as fit below 2^30 words
+        for _ in 0..n_big {
+            if w.write_shape(&big).is_ok() { ok += 1; }
+        }
+        let res = write_res(guarded(|| w.write_shape(&other)));
+        let mut e = res;
+        e["ev"] = json!("giga");
+        e["n"] = json!(n_big);
+        e["ok"] = json!(ok);
+        e["words"] = json!(50 + ok * per_words);
+        e["otherWords"] = json!((other.size_in_bytes() + 4) / 2 + 4);
+        traces[k % chunks].run(e);
+        k += 1;
+        std::mem::forget(w);
     }
     // 4. histories that reach "round" numbers of uncommitted records (255, 256, 257, 512) before the event of
     //    interest: a refused write, a finalize, another write (point shapes: the traces stay small)
